@@ -474,6 +474,12 @@ impl AgentSim {
                 ctx.st.inc("probe.wakeup_more_than_3600s_ahead");
             }
         }
+        if let Reply::Cancelled(tid) = &r {
+            if self.model.ambiguous_cancel(*tid) {
+                let q = exec(&mut self.agent, &Call::QueryTx { tid: *tid }, self.base);
+                self.model.hint_live_gone = Some(matches!(q, Reply::Tx(None)));
+            }
+        }
         let first = match self.model.on_poll(at, &r) {
             Ok(o) => {
                 match &o {
